@@ -4,8 +4,10 @@
 use crate::{
     declaration::{compile_ctor, compile_dtor},
     def::{compile_def, compile_main},
+    rename::redirect_calls,
 };
 use core_lang::syntax::names::Identifier;
+use fun::syntax::names::fresh_name;
 
 use std::collections::VecDeque;
 
@@ -31,9 +33,37 @@ pub fn compile_prog(prog: fun::syntax::program::CheckedProgram) -> core_lang::sy
     }
 
     let mut used_labels = prog.defs.iter().map(|def| def.name.clone()).collect();
+
+    // the result of the entry point `main` ends the program, so if `main` is also called like an
+    // ordinary top-level function, we additionally translate it as one under a fresh label and
+    // redirect the calls to that label
+    let main_alias = fresh_name(&mut used_labels, "main");
+    let mut main_is_called = false;
+    let defs: Vec<_> = prog
+        .defs
+        .into_iter()
+        .map(|def| {
+            let (def, called) = redirect_calls(def, "main", &main_alias);
+            main_is_called |= called;
+            def
+        })
+        .collect();
+    if !main_is_called {
+        used_labels.remove(&main_alias);
+    }
+
     let mut defs_translated = VecDeque::new();
-    for def in prog.defs {
+    for def in defs {
         if def.name == "main" {
+            if main_is_called {
+                let mut def_alias = def.clone();
+                def_alias.name.clone_from(&main_alias);
+                defs_translated.extend(compile_def(
+                    def_alias,
+                    codata_types.as_slice(),
+                    &mut used_labels,
+                ));
+            }
             for def_main in compile_main(def, codata_types.as_slice(), &mut used_labels)
                 .into_iter()
                 .rev()
